@@ -171,8 +171,8 @@ class C18(PairCheck):
         from harness.drivers import udpcl_cases, btpu_cases
         utr, ume = udpcl_cases.executions('quick', seed)
         btr, bme = btpu_cases.executions('quick', seed)
-        keep_u = [i for (i, t) in enumerate(utr) if any(ev['a'] == 'Sig' for ev in t)][:80]
-        keep_b = [i for (i, t) in enumerate(btr) if any(ev['a'] == 'Sig' for ev in t)][:60]
+        keep_u = [i for (i, t) in enumerate(utr) if any(ev['a'] == 'Sig' for ev in t)]
+        keep_b = [i for (i, t) in enumerate(btr) if any(ev['a'] == 'Sig' for ev in t)]
         xt = [utr[i] for i in keep_u] + [btr[i] for i in keep_b]
         xm = [dict(ume[i], agent='udpcl') for i in keep_u] + [dict(bme[i], agent='btpu') for i in keep_b]
         self.extra_coverage['udpcl_btpu_signal_traces'] = len(xt)
